@@ -11,6 +11,7 @@ func init() {
 	verifRegister("VerifC18_ELoc", VerifC18_ELoc)
 	verifRegister("VerifC18_ELocSealed", VerifC18_ELocSealed)
 	verifRegister("VerifC18_ETrace", VerifC18_ETrace)
+	verifRegister("VerifC18_ECallbackSite", VerifC18_ECallbackSite)
 }
 
 type c18Tmpl struct {
@@ -66,6 +67,8 @@ var c18Tmpls = []c18Tmpl{
 	{"(defun g (x) (thread-last x (+ 1) (nth 'y) (+ 3))) (list (g 2))", "call:nth", ""},
 	// an expansion the macro took out of its argument with cdr: no position of its own, so the macro call site
 	{"(defmacro call-rest (form) (cdr form)) (list 1 (call-rest (ignored car 5)))", "call:call-rest", "C18-cdr-built-expansion-not-stamped"},
+	// set! of a symbol bound nowhere, deep inside a function: the symbol itself, not the top-level form
+	{"(defun f () (let ((a 1)) (set! nope 2))) (list (f))", "sym:nope", ""},
 	{"(defun thrower () (error 'a-err 3)) (handler-bind ((a-err (lambda (c &rest x) (ignore-errors (car 5)) (rethrow)))) (thrower))", "call:error", ""},
 }
 
@@ -284,6 +287,45 @@ func VerifC18_ETrace() {
 	if si < 3 {
 		vAssert(top.Name == "error" || top.Name == "car", "the raising builtin is the innermost frame")
 	}
+	cleanRuntime(env, "user")
+	vCover("end")
+}
+
+// A function called BY A BUILTIN (map, foldl, select, funcall, apply) has that builtin's call
+// expression as its call site — also when an earlier call made through the same builtin ran an
+// eliminated tail loop (which makes other call expressions current while it runs).
+func VerifC18_ECallbackSite() {
+	srcs := []string{
+		"(defun lp (n) (cond ((= n 5) (error 'boom 1)) ((= n 0) 0) (:else (lp (- n 1))))) (map 'list lp '(1 5))",
+		"(defun lp (acc n) (cond ((= n 5) (error 'boom 1)) ((= n 0) acc) (:else (lp acc (- n 1))))) (foldl lp 0 '(2 5))",
+		"(defun lp (n) (cond ((= n 5) (error 'boom 1)) ((= n 0) true) (:else (lp (- n 1))))) (select 'list lp '(1 5))",
+		"(defun lp (n) (cond ((= n 5) (error 'boom 1)) ((= n 0) 0) (:else (lp (- n 1))))) (list (funcall lp 2) (funcall lp 5))",
+	}
+	heads := []string{"map", "foldl", "select", "funcall"}
+	si := vConcInt(vndChoice("src", len(srcs)))
+	exprs, nodes, locs := c18Prepare(srcs[si])
+	env := newEnv(nil)
+	res := c18Run(env, exprs)
+	vAssert(res.Type == lisp.LError && res.Str == "boom", "the second callback call fails: "+outcome(res))
+	st := res.CallStack()
+	vAssert(st != nil, "the error carries a stack trace")
+	// the LAST call expression with that head (for funcall: the failing one)
+	var site *lisp.LVal
+	for _, n := range nodes {
+		if n.Type == lisp.LSExpr && !n.IsQuoted() && len(n.Cells) > 0 && n.Cells[0].Type == lisp.LSymbol && n.Cells[0].Str == heads[si] {
+			site = n
+		}
+	}
+	vAssert(site != nil, "call expression present")
+	found := false
+	for i := len(st.Frames) - 1; i >= 0; i-- {
+		if f := st.Frames[i]; f.Name == "lp" {
+			found = true
+			vAssert(f.Source != nil && f.Source.Pos == locs[site].Pos && f.Source.Line == locs[site].Line, "the callback's frame records the builtin's call expression as its call site")
+			break
+		}
+	}
+	vAssert(found, "the callback's frame is in the trace")
 	cleanRuntime(env, "user")
 	vCover("end")
 }
